@@ -221,7 +221,7 @@ SLICE_OPS = ('put_slice',) * 5 + ('insert',) * 2 + ('append', 'extend', 'prepend
 @st.composite
 def step_strategy(draw, rich_opts: bool = True):
     step = {'tsel': draw(st.integers(0, 1 << 30)), 'form': draw(st.sampled_from(['src', 'src', 'ast', 'fst'])),
-            'dsel': draw(st.integers(0, 1 << 30)), 'opts': draw(options_strategy(rich_opts))}
+            'dsel': draw(st.integers(0, 1 << 30)), 'opts': draw(options_strategy(rich_opts)), 'junk': draw(st.integers(0, 27))}
 
     if draw(st.integers(0, 9)) < 6:
         step['op'] = draw(st.sampled_from(NODE_OPS))
@@ -296,7 +296,31 @@ def donor_source(cat: str, step: dict) -> str:
     if step.get('layout') and cat in ('stmt',):
         code = gen.mutate_layout(code, step['layout'])
 
-    return code
+    return decorate(code, cat, step.get('junk', 0))
+
+
+def decorate(code: str, cat: str, junk: int) -> str:
+    """Surround donor source with whitespace / comment trivia that is not part of the node (junk 1..9; anything else: none). Only forms that
+    keep the donor valid standalone source of its kind."""
+
+    if not 1 <= junk <= 9 or not code or code.rstrip().endswith('\\') or '\f' in code:
+        return code
+
+    last = code.rsplit('\n', 1)[-1]
+    can_comment = '#' not in last and "'" not in last and '"' not in last  # conservatively: no string / comment on the last line
+
+    if cat == 'stmt':
+        return {1: code + '\n ', 2: code + '\n    ', 3: '\n' + code, 4: code + '\n\n', 5: code + '  # tc' if can_comment else code, 6: '# lead\n' + code,
+                7: code + '\n\t', 8: code + '\n# after', 9: '\n\n' + code + '\n \n'}[junk]
+
+    if cat in ('expr', 'expr_store'):
+        if code.lstrip().startswith(('yield', 'lambda')) or ':=' in code:
+            return code
+
+        return {1: '\n' + code + '\n ', 2: code + '  # tc' if can_comment else code, 3: ' ' + code + ' ', 4: code + '\n', 5: '\n ' + code, 6: code + ' ',
+                7: '# lead\n' + code, 8: code + '\n# after', 9: code + '\n    '}[junk]
+
+    return {1: code + '  # tc' if can_comment else code, 2: code + '\n', 3: code + ' ', 4: ' ' + code}.get(junk, code)
 
 
 def make_code(code_src: str, cat: str, form: str):
